@@ -88,6 +88,9 @@ def check_geodetic(case, ctx):
         ctx.le("... and the height (m)", abs(llh[2] - h), 1e-4, {"h": h, "back": llh[2], "lat": lat, "via": nm}, route=r)
         if abs(lat) != 90.0:
             ctx.le("... and the longitude (deg, modulo 360)", abs((llh[1] - lon + 180.0) % 360.0 - 180.0), 1e-9 / max(np.cos(phi), 1e-6), {"lon": lon, "back": llh[1], "via": nm}, route=r)
+        else:
+            # the property includes the poles: cos(90 deg) is 6e-17 in floating point, not 0, so x and y still carry the longitude and atan2 returns it
+            ctx.le("... and the longitude at a pole (deg, modulo 360)", abs((llh[1] - lon + 180.0) % 360.0 - 180.0), 1e-9, {"lon": lon, "back": llh[1], "via": nm, "x_y": X[:2]}, route=r)
         o3 = call(lambda: f.geodetic2ecef(float(llh[0]), float(llh[1]), float(llh[2])))
         if ctx.returned(o3, route=r):
             ctx.le("the returned geodetic coordinates map back onto the ECEF point (m)", np.abs(np.asarray(o3.value, float) - X).max(), 2e-2, {"via": nm}, route=r)
